@@ -162,6 +162,20 @@ def cases(tier):
                     s["controls"] = [dict(c, prio=3, name="c%d" % i) for i, c in enumerate(cs)]
                     s["id"] = {"skel": skel, "pat": pat, "hyd": H, "cv": False, "controls": s["controls"], "rule_step": 1}
                     out.append(s)
+        # the tank starts a hair (0.3 / 0.6 mm) on the false side of the threshold of a single CLOSED control: the crossing falls
+        # within the first second(s) after the accepted solution at time 0 (small tank: its level moves ~1 mm/s)
+        if skel in ("twosrc", "pumpfeed") and pat in ("fill", "drain"):
+            for a in A:
+                if a["kind"] != "level" or a["value"] != "CLOSED" or a["thr"] in (LEVELS[0], LEVELS[-1]) or (a["rel"] == ">") != (pat == "fill"):
+                    continue
+                for off in (3e-4, 6e-4, 2e-3):
+                    s = skeleton(skel, pat, H)
+                    tk = node(s, "T")
+                    tk["diam"] = 3.0
+                    tk["init"] = a["thr"] - off if a["rel"] == ">" else a["thr"] + off
+                    s["controls"] = [dict(a, prio=3, name="c0")]
+                    s["id"] = {"skel": skel, "pat": pat, "hyd": H, "cv": False, "controls": s["controls"], "init_hair": off}
+                    out.append(s)
         for cs in sets:
             for hyd in ((H, 900) if len(cs) == 1 else (H,)):
                 for cv in ((False, True) if skel != "valve" and len(cs) <= 2 and any(c["link"] == "p2" for c in cs) else (False,)):
